@@ -205,7 +205,8 @@ Definition is_started (d : lzd) : bool := negb (read_pos d =? -1).
 (* ---------------------------------------------------------------------------------------------
    LZMAEncoder: window + read_ahead + uncompressed_size (+ the one bit of the range coder that the
    LZMA2 loop reads).  [g_base] is a GHOST: the sum of all move offsets; no modelled computation of
-   the Rust code reads it, it only tells the strategy the logical position. *)
+   the Rust code reads it, it only tells the strategy the logical position (and feeds one shadow
+   assertion in encode_symbol). *)
 Record encd := mkEncd {
   e_lz : lzd;
   read_ahead : Z;        (* i32 *)
@@ -319,6 +320,10 @@ Section WithOracle.
     (* the literal coder reads buf[read_pos - read_ahead] and buf[read_pos - read_ahead - 1] *)
     let cur := read_pos (e_lz e1) - read_ahead e1 in
     if (cur - 1 <? 0) || (buf_size p <=? cur) then Panic P_INDEX else
+    (* shadow assertion over the ghost base (the only place where it is read): the farthest byte a
+       symbol can refer to — distance min(dict_size, logical position) behind the byte being coded,
+       for a match, a rep or the matched-literal byte — is still in the buffer *)
+    if negb ((g_base e1 =? 0) || (dict_size p <=? cur)) then Panic P_INDEX else
     do ra2 <- ck_i32 (read_ahead e1 - as_i32 len);
     do u <- ck_u32 (unc_size e1 + len);
     Ok (Some (mkEncd (e_lz e1) ra2 u full (g_base e1), ps1, EvSym len (read_ahead e1) :: tr1)).
